@@ -4,7 +4,7 @@
    hand models that are run against the real code on every run. *)
 From Coq Require Import ZArith List Bool.
 From MomoCommon Require Import GenPrelude.
-From C09 Require Gen_UIntMath Gen_MemPoolConst Gen_MemPool PoolLayout PoolLinks PoolArith PoolLinksProofs PoolModel PoolConc PoolConcProofs PoolInv PoolAddr PoolCompl PoolOne.
+From C09 Require Gen_UIntMath Gen_MemPoolConst Gen_MemPool PoolLayout PoolLinks PoolArith PoolLinksProofs PoolModel PoolConc PoolConcProofs PoolInv PoolAddr PoolCompl PoolOne Gen_MemPoolUInt32 PoolU32.
 Import ListNotations.
 Local Open Scope Z_scope.
 
@@ -547,3 +547,53 @@ Theorem C09_end_to_end_full : forall C B A CF uc beg ops,
     (forall b' q len, ~ In b' (PoolConc.returned w) -> In (q, len) (PoolAddr.meta_of C B A beg b') -> q + len <= a \/ a + B <= q).
 Proof. exact PoolAddr.end_to_end_full. Qed.
 Print Assumptions C09_end_to_end_full.
+
+(* every buffer is returned to the manager at most once - over the FULL alphabet (Allocate, Deallocate, MergeFrom, DeallocateAll,
+   Swap, move assignment, DeallocateIf) *)
+Theorem C09_every_buffer_returned_at_most_once_full : forall C, 1 <= C -> forall CF uc ops,
+  NoDup (PoolConc.returned (PoolCompl.frun C CF uc ops)).
+Proof. exact PoolCompl.returned_once_full. Qed.
+Print Assumptions C09_every_buffer_returned_at_most_once_full.
+
+(* after fix e4ec548: for EVERY block size accepted by pvCheckParams (any blockCount 1..127, alignment 1..1024) the buffer sizes
+   pvGetBufferSize / pvGetBufferSize1 computed in size_t do not wrap: they equal their mathematical values, are < 2^64, and the
+   multi-block buffer really holds blockCount blocks. *)
+Theorem C09_check_params_no_wrap : forall C B A, PoolLayout.check_params C B A = true ->
+  Gen_MemPool.pvGetBufferSize C B A =
+    C * B + PoolArith.addend A + (2 + (B / A) mod 2) * A + (if 3 <=? A then 0 else 2) + 18 /\
+  Gen_MemPool.pvGetBufferSize C B A < 2 ^ 64 /\ C * B <= Gen_MemPool.pvGetBufferSize C B A /\
+  Gen_MemPool.pvGetBufferSize1 B A = B + PoolArith.addend A + 2 /\ Gen_MemPool.pvGetBufferSize1 B A < 2 ^ 64.
+Proof. exact PoolArith.check_params_no_wrap. Qed.
+Print Assumptions C09_check_params_no_wrap.
+
+(* the check as coded BEFORE the fix accepted blockCount 127, alignment 1, blockSize (2^64-1)/127 although the buffer size
+   wraps below blockCount*blockSize (defect found by this check; the pool then wrote outside its 21-byte buffer) *)
+Theorem C09_check_params_prefix_refuted :
+  exists C B A, PoolArith.check_params_prefix C B A = true /\ Gen_MemPool.pvGetBufferSize C B A < C * B.
+Proof. exact PoolArith.check_params_prefix_refuted. Qed.
+Print Assumptions C09_check_params_prefix_refuted.
+
+(* internal::MemPoolUInt32 (32-bit handles), over the GENERATED GetRealPointer / pvGetBufferSize / pvNewBuffer:
+   handle <-> (buffer, offset): different handles below n*blockCount denote disjoint blocks, each inside buffer h / blockCount *)
+Theorem C09_u32_handles_disjoint : forall bc bs, 1 <= bc -> 4 <= bs -> bc * bs < 2 ^ 63 ->
+  forall mB mH mM mA n h h',
+  0 <= h < n * bc -> 0 <= h' < n * bc -> n * bc <= 4294967295 -> h <> h' ->
+  (forall k k', 0 <= k < n -> 0 <= k' < n -> k <> k' -> mB k + bc * bs <= mB k' \/ mB k' + bc * bs <= mB k) ->
+  exists a a', Gen_MemPoolUInt32.GetRealPointer bc mB mH mM bs mA h = Ok a /\
+               Gen_MemPoolUInt32.GetRealPointer bc mB mH mM bs mA h' = Ok a' /\
+               0 <= h / bc < n /\ mB (h / bc) <= a /\ a + bs <= mB (h / bc) + Gen_MemPoolUInt32.pvGetBufferSize bc mB mH mM bs mA /\
+               (a + bs <= a' \/ a' + bs <= a).
+Proof. exact PoolU32.handles_disjoint. Qed.
+Print Assumptions C09_u32_handles_disjoint.
+
+(* pvNewBuffer: below the limit maxTotalBlockCount / blockCount the new buffer's handles bufferCount*blockCount + i do not wrap in
+   32 bits and are never the null handle, mBlockHead becomes the first of them; at the limit it throws *)
+Theorem C09_u32_newbuffer_handles_and_refusal : forall bc bs, 1 <= bc -> 4 <= bs -> bc * bs < 2 ^ 63 ->
+  forall mB mH mM mA buffer bufferCount,
+  0 <= bufferCount -> mM * bc <= 4294967294 ->
+  (bufferCount < mM ->
+     Gen_MemPoolUInt32.pvNewBuffer bc mB mH mM bs mA buffer bufferCount = Ok (tt, bufferCount * bc) /\
+     forall i, 0 <= i < bc -> 0 <= bufferCount * bc + i < 4294967295 /\ wrapU 32 (bufferCount * bc + i) = bufferCount * bc + i) /\
+  (mM <= bufferCount -> Gen_MemPoolUInt32.pvNewBuffer bc mB mH mM bs mA buffer bufferCount = Exn).
+Proof. exact PoolU32.newbuffer_spec. Qed.
+Print Assumptions C09_u32_newbuffer_handles_and_refusal.
